@@ -92,7 +92,7 @@ func buildFields(rt reflect.Type, u byte, omitEmpty bool) (fa []*finfo) {
 		fa = buildLowFields(rt, (maskNested&u) == 0, omitEmpty)
 	}
 	sort.Slice(fa, func(i, j int) bool { return 0 > strings.Compare(fa[i].key, fa[j].key) })
-	return
+	return shadow(fa)
 }
 
 func buildTagFields(rt reflect.Type, nested, omitEmpty bool) (fa []*finfo) {
@@ -222,4 +222,27 @@ func buildLowFields(rt reflect.Type, nested, omitEmpty bool) (fa []*finfo) {
 		}
 	}
 	return
+}
+
+// shadow applies Go's rule for fields that map to the same key (a field and a promoted field of an embedded struct):
+// the shallowest one wins; when there is no single shallowest one they are all left out, as encoding/json does.
+func shadow(fa []*finfo) []*finfo {
+	depth := map[string]int{}
+	count := map[string]int{}
+	for _, fi := range fa {
+		d := len(fi.index)
+		if best, has := depth[fi.key]; !has || d < best {
+			depth[fi.key] = d
+			count[fi.key] = 1
+		} else if d == best {
+			count[fi.key]++
+		}
+	}
+	out := make([]*finfo, 0, len(fa))
+	for _, fi := range fa {
+		if len(fi.index) == depth[fi.key] && count[fi.key] == 1 {
+			out = append(out, fi)
+		}
+	}
+	return out
 }
